@@ -70,7 +70,10 @@ type c05Scenario struct {
 	gz    bool // the outputs are compressed (-Z): gunzipped before any comparison
 	light bool // fewer configurations (scenario added for a second option set of an already covered command)
 	nrec  int       // number of records of the generated inputs (0: 24 quick / 60 thorough)
-	trail string    // bytes the command prints on stdout after its last record (obitag: an empty line): checked and removed
+	trail string    // bytes the command prints on stdout after its last record: checked and removed
+	// what the command prints for an EMPTY input (obitag ends with fmt.Println(""): with an input the writer has closed
+	// stdout by then and nothing more is printed, without input the line is printed): checked and removed
+	emptyOut string
 	cfgs  []c05Cfg  // the parallelism configurations of the scenario (nil: c05Configs / c05LightConfigs)
 	stress int      // number of records of the stress runs (0: 4000)
 }
@@ -150,7 +153,7 @@ var c05Scenarios = []c05Scenario{
 	{name: "clean", cmd: "obiclean", args: []string{"-r", "0.5"}, kind: "clean", input: "clean", nrec: 40, stress: 500},
 	{name: "clean-head", cmd: "obiclean", args: []string{"-H"}, kind: "clean", input: "clean", nrec: 40, light: true, stress: 300},
 	// obitag against a small reference data base with tied references: every query alone is the model of the run
-	{name: "tag", cmd: "obitag", kind: "records", input: "tag", trail: "\n", stress: 1500},
+	{name: "tag", cmd: "obitag", kind: "records", input: "tag", stress: 1500, emptyOut: "\n"},
 	// obisummary of a cleaned data set: the obiclean_bad column is printed (every record carries obiclean_status)
 	{name: "summary-cleaned", cmd: "obisummary", kind: "opaque", input: "fasta-cleaned", light: true},
 	// ---- identity conversion of a large annotated file: the output must be the input, byte for byte, in every run
@@ -751,6 +754,14 @@ func c05RunOnce(sc *c05Scenario, recs [][2]string, cfg c05Cfg) (res c05Res, infr
 		} else if res.status == "ok" {
 			res.status = "no-trailer"
 			res.detail = fmt.Sprintf("stdout does not end with %q", sc.trail)
+		}
+	}
+	if sc.emptyOut != "" && len(recs) == 0 {
+		if string(so) == sc.emptyOut {
+			so = nil
+		} else if res.status == "ok" {
+			res.status = "bad-empty-output"
+			res.detail = fmt.Sprintf("stdout is %q for an empty input, %q expected", so, sc.emptyOut)
 		}
 	}
 	res.streams = append(res.streams, so)
